@@ -276,7 +276,7 @@ PHashOK(o) == TRUE
 PCnt(p, o) == Cardinality({k \in K : S.ps[p].slot[k] = o})
 POut(p) == {S.ps[p].slot[k] : k \in K} \ {Nil}
 PInDeg(o) == Cardinality({pk \in PIds \X K : S.ps[pk[1]].slot[pk[2]] = o})
-I == INSTANCE RealmInv WITH Ids <- PIds, Counted <- PHere(S.ps), NoId <- Nil, Ext <- {},
+I == INSTANCE RealmInv WITH Ids <- PIds, Counted <- PHere(S.ps), RootIds <- RootObjs, NoId <- Nil, Ext <- {},
        IsPkg <- PIsPkg, Rc <- PRc, Owner <- POwner, Esc <- PEsc, HashOK <- PHashOK, Cnt <- PCnt, InDeg <- PInDeg, Out <- POut
 
 AtBoundary == nops = 0 /\ frame = 1
